@@ -145,6 +145,10 @@ func (m *protoMon) step(w *world, ev event, outs []outMsg) (string, string) {
 			return "", ""
 		}
 	case "C06":
+		if pe.Local == "silence" && before == 'L' && m.state == 'L' && countType(outs, "0")+countType(outs, "1") == 0 {
+			// 35 s without traffic on a logged-on session (intervals 5 and 30 s): its timers must have spoken
+			return "logged-on-session-went-quiet", det("neither a Heartbeat nor a TestRequest in 35 s of silence: an earlier event disturbed the session")
+		}
 		if logged && m.state != 'L' {
 			if m.everLogged && m.silences > 0 {
 				// an approved Logon happened earlier on this connection and the session was logged out
@@ -357,6 +361,11 @@ func protoAlphabet(role string, which string) []*protoEvent {
 	add(inEv("Logon(bad-checksum)", "A", false, false, "", true, func(w *world) []byte { return badChecksum(w.msg("A", "98=0", "108=30")) }))
 	add(inEv("Logon(bad-length)", "A", false, false, "", true, func(w *world) []byte { return badLength(w.msg("A", "98=0", "108=30")) }))
 	add(inEv("Logon(hb-not-numeric)", "A", false, false, "", true, lg("98=0", "108=x")))
+	if which != "C16" {
+		// a Logon that lacks a parameter altogether (after one that carried it: nothing may be remembered)
+		add(inEv("Logon(no-108)", "A", true, !acc, "108", true, lg("98=0")))
+		add(inEv("Logon(no-98)", "A", true, !acc, "98", true, lg("108=30")))
+	}
 	// other administrative messages
 	add(inEv("Heartbeat", "0", true, false, "", true, func(w *world) []byte { return w.msg("0") }))
 	add(inEv("TestRequest", "1", true, false, "", true, func(w *world) []byte { return w.msg("1", "112=T1") }))
@@ -493,13 +502,123 @@ func runProto(R *vlib.Out, prop string) {
 			runC16conn(R)
 			return
 		}
+		if probe.Scenario == "logon-sweep" {
+			runLogonSweep(R, prop)
+			return
+		}
 		replayHist(R, cfgs)
 		return
 	}
 	if prop == "C16" {
 		runC16conn(R) // the connection-level part first: it is small
 	}
+	if prop == "C06" || prop == "C07" {
+		runLogonSweep(R, prop)
+	}
 	for _, c := range cfgs {
 		exploreHist(R, c)
+	}
+}
+
+
+// ---- logon parameter sweep (C06 / C07) ----
+// One Logon on a fresh accepting session: every heartbeat interval of a list that contains the limits,
+// their neighbours and the values at which arithmetic on seconds / nanoseconds wraps around (2^31,
+// 2^32, 2^63/10^9, 2^64/10^9 and multiples, 2^63-1) x encryption method {allowed, disallowed, absent} x
+// Opts.Tags {all four tags, only the two the library insists on}; followed by three heartbeat periods
+// of silence and a TestRequest.  C06: logged on iff the interval is within the limits and the method is
+// allowed, otherwise exactly one Reject with the Logon's number and the session not logged on.  C07:
+// nothing but Logon / Logout / Reject reaches a peer whose Logon was refused, not even later.
+
+type sweepCase struct {
+	Scenario string `json:"scenario"` // "logon-sweep"
+	HB       string `json:"hb"`
+	Method   string `json:"method"` // "0" allowed, "1" not allowed, "" absent
+	Minimal  bool   `json:"minimal_tags"`
+}
+
+var sweepHBs = []string{"-1", "0", "1", "4", "5", "6", "29", "30", "31", "61", "3600", "86400", "2147483647", "2147483648", "4294967296", "4294967301",
+	"9223372036", "9223372037", "9223372042", "18446744073", "18446744074", "18446744075", "18446744079", "18446744100", "18446744103", "18446744104",
+	"27670116115", "36893488148", "36893488153", "9223372036854775807", "9223372036854775808", "18446744073709551621"}
+
+func sweepRun(prop string, c sweepCase) (string, string) {
+	w := newWorld(wcfg{Role: "acc", Buf: 10, HbMin: 5, HbMax: 30, MinimalTags: c.Minimal})
+	fields := []string{}
+	if c.Method != "" {
+		fields = append(fields, "98="+c.Method)
+	}
+	fields = append(fields, "108="+c.HB)
+	w.in(w.msg("A", fields...))
+	outs := w.take()
+	hb, err := strconv.Atoi(c.HB)
+	acceptable := err == nil && hb >= 5 && hb <= 30 && c.Method == "0"
+	det := func(f string, a ...any) string {
+		return fmt.Sprintf(f, a...) + fmt.Sprintf(" | Logon 108=%s 98=%q minimal-tags=%v IsLogged=%v outs=[%s]", c.HB, c.Method, c.Minimal, w.s.IsLogged(), outsStr(outs))
+	}
+	if acceptable {
+		if !w.s.IsLogged() || len(outs) == 0 || mtype(outs[0].Msg) != "A" {
+			return "sweep:acceptable-logon-not-accepted", det("")
+		}
+		return "", ""
+	}
+	if prop == "C06" {
+		if w.s.IsLogged() {
+			return "sweep:logged-after-logon-outside-limits", det("limits 5..30, allowed method 0")
+		}
+		if len(outs) != 1 || mtype(outs[0].Msg) != "3" {
+			return "sweep:refused-logon-not-answered-by-one-reject", det("")
+		}
+		if ref, _ := get(outs[0].Msg, "45"); ref != "1" {
+			return "sweep:reject-wrong-refseqnum", det("RefSeqNum=%s want 1", ref)
+		}
+		return "", ""
+	}
+	// C07: whatever follows, the refused peer sees nothing but Logon / Logout / Reject
+	sleepFor(95)
+	settle()
+	if !w.runDone {
+		w.in(w.msg("1", "112=after-refusal"))
+	}
+	for _, o := range append(outs, w.take()...) {
+		if t := mtype(o.Msg); t != "A" && t != "5" && t != "3" {
+			return "sweep:pre-logon->" + typeName(t), det("message type %s sent to a peer whose Logon was refused", t)
+		}
+	}
+	if w.s.IsLogged() {
+		return "sweep:pre-logon->logged", det("")
+	}
+	return "", ""
+}
+
+func runLogonSweep(R *vlib.Out, prop string) {
+	one := func(c sweepCase) {
+		R.Eval()
+		sig, d, steps := execBody(func() (string, string) { return sweepRun(prop, c) })
+		R.Transitions += int64(steps)
+		key := fmt.Sprintf("sweep/%s/%q/%v", c.HB, c.Method, c.Minimal)
+		R.State(key)
+		R.ClassU(key)
+		R.Outcome("sweep")
+		if sig != "" {
+			R.Violate(sig, d, c)
+		}
+	}
+	if *vlib.ReplayPath != "" {
+		var c sweepCase
+		vlib.LoadReplay(&c)
+		one(c)
+		return
+	}
+	unit := 0
+	for _, minimal := range []bool{false, true} {
+		for _, method := range []string{"0", "1", ""} {
+			for _, hb := range sweepHBs {
+				unit++
+				if !vlib.Mine(unit) {
+					continue
+				}
+				one(sweepCase{Scenario: "logon-sweep", HB: hb, Method: method, Minimal: minimal})
+			}
+		}
 	}
 }
